@@ -1,6 +1,7 @@
 """C17: shortest paths (dijkstra, johnsons, floyd_warshall) and the layout distance matrix are exact."""
 import json, os, re
 import vcheck as V
+from checks import heap
 
 PID = 'C17'
 SPT = os.path.join(V.SPEC, 'cola', 'ShortestPaths.tla')
@@ -73,6 +74,8 @@ def main(tier):
     ev.cov['exhaustive'] = False
     ev.assumptions = ['weights are multiples of 1/8 so every sum is exact in doubles; equality is exact, stricter than the 1e-9 of the statement',
                       'G diagonal not specified (a self-loop sets it to 1)']
+    # beyond the statement: the priority queue under Dijkstra (and under VPSC's constraint heaps), Heap.tla / HeapTrace.tla
+    heap.stage(ev, vd, V.rundir('heap'), quick)
     rc = vd.finish()
     ev.write()
     return rc
